@@ -443,6 +443,59 @@ ASSUMPTIONS = [
 ]
 
 
+def run_special(task):
+    """(a) a run longer than the line buffer: the lines still buffered when the run ends are not the i-th lines of the run,
+    so they may not be shown as partners of the first added lines (N = line-buffer-size + 2 .. + 4 removed lines, then 3
+    added ones, distance 1 and 0.6); (b) lines that differ only in bytes that are not UTF-8 (a Latin-1 file): at
+    distance 0 they are no partners (recorded finding, see known_findings.json)."""
+    (deadline,) = task
+    drv = explore.get_driver()
+    viols = []
+    n = 0
+    head = b"diff --git a/f b/f\n--- a/f\n+++ b/f\n"
+
+    def bgs(row):
+        return set(st[1] for t, st in row.runs if t.strip() and st[1] is not None)
+    for lbs in (2, 32):
+        for dist in ("1", "0.6"):
+            o = {"max-line-distance": dist, "line-buffer-size": str(lbs), "width": "variable", "hunk-header-style": "110",
+                 "hunk-header-decoration-style": "none"}
+            args = build_args(base_opts(o))
+            cid = drv.mkconfig(args)
+            for extra in (2, 3, 4):
+                nm = lbs + extra
+                data = head + b"@@ -1,%d +1,3 @@\n" % nm + b"".join(b"-    step_%02d\n" % i for i in range(1, nm + 1)) + \
+                    b"".join(b"+step_%02d\n" % i for i in range(1, 4))
+                r = drv.render1(cid, data)
+                n += 1
+                rows = [row for row in term.decode(r.out) if obs.observe_row(row).kind in ("plus", "mixed")]
+                paired = [row.text for row in rows if bgs(row) & {("i", 105), ("i", 106)}]
+                if paired and not any(v.klass == "paired-across-buffer-overflow" for v in viols):
+                    v = Violation("paired-across-buffer-overflow", "%d removed lines (line-buffer-size %d) then 3 added lines: added "
+                                  "line(s) %r are shown as partners of removed lines %d.. (the i-th removed line belongs to the "
+                                  "i-th added line)" % (nm, lbs, paired, lbs + 2), data.split(b"\n")[:-1])
+                    v.args = args
+                    v.config_label = "overflow,lbs=%d,distance=%s" % (lbs, dist)
+                    viols.append(v)
+            drv.drop(cid)
+    o = {"max-line-distance": "0", "width": "variable", "hunk-header-style": "110", "hunk-header-decoration-style": "none"}
+    args = build_args(base_opts(o))
+    cid = drv.mkconfig(args)
+    for a, b in ((b"caf\xe9 du monde", b"caf\xe8 du monde"), (b"x \xff y", b"x \xfe y"), (b"\xe9", b"\xe8")):
+        data = head + b"@@ -1 +1 @@\n-" + a + b"\n+" + b + b"\n"
+        r = drv.render1(cid, data)
+        n += 1
+        rows = [row for row in term.decode(r.out) if obs.observe_row(row).kind in ("minus", "plus", "mixed")]
+        if any(bgs(row) & {("i", 102), ("i", 105)} for row in rows) and not any(v.klass.startswith("paired-though") for v in viols):
+            v = Violation("paired-though-different:invalid-utf8", "max-line-distance 0: %r and %r differ in a byte that is not "
+                          "UTF-8 and are shown as a pair of identical lines" % (a, b), data.split(b"\n")[:-1])
+            v.args = args
+            v.config_label = "invalid-utf8,distance=0"
+            viols.append(v)
+    drv.drop(cid)
+    return {"n": n, "violations": viols, "label": "special"}
+
+
 def main(tier):
     t0 = time.time()
     build.ensure_built()
@@ -472,6 +525,7 @@ def main(tier):
     res3 = explore.pmap(run_long, [(d, deadline) for d in DISTANCES])
     res3 += explore.pmap(run_crosshunk, [(deadline,)])
     res3 += explore.pmap(run_shapes, [(deadline,)])
+    res3 += explore.pmap(run_special, [(deadline,)])
     res2 = res2 + [dict(r, pairs=0) for r in res3]
     n = sum(r["n"] for r in res)
     nemph = sum(r["emph"] for r in res)
